@@ -130,6 +130,8 @@ def case(draw):
     if hinfo:
         # a header block of more than 4 KiB (tags, then a long licence notice): it has to be found and replaced as a whole
         hinfo["long"] = draw(st.integers(0, 5)) == 0
+        cdecl = [d for d in DECL.get(style, []) if S.has_single(style) and d.startswith(S.STYLES[style][0][:1])]
+        hinfo["inner_decl"] = draw(st.sampled_from(cdecl)) if cdecl and where == "middle" and pre and draw(st.booleans()) else None
         hinfo["trail"] = draw(st.lists(st.sampled_from(["", "", " ", "  ", "\t", " \t "]), min_size=6, max_size=6))
         # code on the same line as the delimiter that closes an existing block header
         hinfo["tailcode"] = draw(st.integers(0, 5)) == 0
@@ -145,6 +147,10 @@ def header_lines(style, form, hinfo):
         out = S.wrap_block(style, body)
     else:
         out = S.wrap_single(style, body)
+    if hinfo.get("inner_decl") and S.has_single(style) and not is_block(style, form):
+        # the block (further down in the file: a script written by a here-document, concatenated parts) begins with a line that looks like a
+        # first-line declaration; it is an ordinary comment line of that block
+        out = [hinfo["inner_decl"]] + out
     trail = hinfo.get("trail") or []
     # trailing blanks on lines of the existing header (never part of a tag value)
     out = [ln + (trail[i % len(trail)] if trail else "") for i, ln in enumerate(out)]
